@@ -19,7 +19,9 @@ use crate::model::*;
 use crate::monitor;
 use crate::runner::{Ctx, Prop, Tier, Violation};
 
-pub const CLASSES: [&str; 16] = [
+pub const CLASSES: [&str; 18] = [
+    "modify-saved-register-after-restore",
+    "unassigned-saved-register-in-main",
     "modify-unsaved-saved-register",
     "sp-not-restored",
     "ra-not-restored",
@@ -214,11 +216,49 @@ pub fn mutate(class: &str, lines: &[Line], info: &CleanInfo, ch: &mut Choices) -
                 monitor: vec!["read-undefined-register"],
             })
         }
-        "unassigned-temporary-in-main" | "unassigned-temporary-in-function" | "unassigned-saved-register-in-function" => {
-            let in_main = class == "unassigned-temporary-in-main";
+        "modify-saved-register-after-restore" => {
+            // one of the epilogues (the final one or an early return) changes a saved register again after restoring it
+            let f = pick_func(info, ch, |f| f.name != "main" && !f.saved.is_empty() && f.frame != 0)?;
+            let restores: Vec<(usize, u8)> = f
+                .frame_access
+                .iter()
+                .filter_map(|k| match &lines[*k] {
+                    Line::Ins(i) if i.mn == "lw" => match i.ops.first() {
+                        Some(Opd::R(x)) if f.saved.contains(x) && *k >= f.body_start => Some((*k, *x)),
+                        _ => None,
+                    },
+                    _ => None,
+                })
+                .collect();
+            // only restores inside an epilogue: followed (after further restores) by the sp adjustment
+            let restores: Vec<(usize, u8)> = restores
+                .into_iter()
+                .filter(|(k, _)| {
+                    let mut j = *k + 1;
+                    while j < f.span.1 && matches!(&lines[j], Line::Ins(i) if i.mn == "lw" && matches!(i.ops.get(1), Some(Opd::M(_, 2)))) {
+                        j += 1;
+                    }
+                    f.epilogue_sp.contains(&j)
+                })
+                .collect();
+            if restores.is_empty() {
+                return None;
+            }
+            let (k, s) = *ch.pick(&restores);
+            let new = if ch.chance(1, 2) { ins("li", vec![r(s), i(ch.int_in(1, 9))]) } else { ins("addi", vec![r(s), r(s), i(ch.int_in(1, 9))]) };
+            Some(Mutation {
+                lines: insert(lines, k + 1, vec![new]),
+                expect: "overwrite-callee-saved-register",
+                accept: vec![k + 1],
+                reg: Some(s),
+                monitor: vec!["saved-register-not-restored"],
+            })
+        }
+        "unassigned-temporary-in-main" | "unassigned-saved-register-in-main" | "unassigned-temporary-in-function" | "unassigned-saved-register-in-function" => {
+            let in_main = class.ends_with("-in-main");
             let f = if in_main { main } else { pick_func(info, ch, |f| f.name != "main")? };
             let used = regs_used(lines, f.span);
-            let pool: &[u8] = if class == "unassigned-saved-register-in-function" { &SAVED } else { &TEMPS };
+            let pool: &[u8] = if class.starts_with("unassigned-saved-register") { &SAVED } else { &TEMPS };
             let free: Vec<u8> = pool.iter().copied().filter(|t| !used.contains(t)).collect();
             if free.is_empty() {
                 return None;
